@@ -515,3 +515,37 @@ Definition T_admission_same_name (hc : hcase) : bool :=
                          end
                      | _ => false
                      end) (hk_evs hc).
+
+(* ====================================================================================
+   "the jq result for THAT VERY object".
+
+   The sentence is already what [item_fields_ok] demands: the object [obj] of a [Stored] element
+   (of a [wobj]) is the object as it exists in the cluster - with everything an API server adds
+   to it: metadata.managedFields, uid, resourceVersion, creationTimestamp, generation,
+   annotations - `object` must be exactly [obj], and [jqf] / [w_outs] is the answer of the jq
+   oracle for exactly [obj].  Nothing is added to P.
+
+   What follows is only the well-formedness of such inputs: a JSON value stands for a Go
+   map[string]any tree exactly when every object in it has its keys strictly increasing (one
+   value per key; the harness prints every object that way). *)
+Fixpoint canon_json (j : json) : bool :=
+  match j with
+  | JArr l => forallb canon_json l
+  | JObj m => sorted_strict m && forallb (fun kv => canon_json (snd kv)) m
+  | _ => true
+  end.
+
+Definition item_canon (i : item) : bool :=
+  match i with Stored _ _ obj => canon_json obj | Raw _ => true end.
+
+Definition ctx_canon (c : ctx) : bool :=
+  forallb item_canon (c_objects c) && forallb (fun p => forallb item_canon (snd p)) (c_snapshots c).
+
+Definition wobj_canon (w : wobj) : bool := canon_json (w_obj w).
+
+Definition flow_canon (f : flow) : bool :=
+  forallb wobj_canon (f_initial f) && forallb (fun op => wobj_canon (snd op)) (f_ops f).
+
+Definition hcase_canon (hc : hcase) : bool :=
+  forallb (fun p => forallb wobj_canon (snd p)) (hk_kube hc)
+  && forallb (fun ev => match ev with HWatch _ _ w => wobj_canon w | _ => true end) (hk_evs hc).
